@@ -3,6 +3,7 @@ package main
 import (
 	"fmt"
 	"go/ast"
+	"go/constant"
 	"go/token"
 	"go/types"
 	"sort"
@@ -388,6 +389,8 @@ func checkC12(r *Report) {
 	}
 	r.floor("C12.c/BORROWED-ARG", "call sites of MatchRequirement", n, 2)
 	exactTagRule(r, p)
+	tagListRule(r, p, "C12.f/TAG-LIST")
+	sortWholeRule(r, p, "C12.g/SORT-WHOLE")
 	var matchFns []*ssa.Function
 	for _, f := range pkgFuncs(p, "resolve") {
 		if strings.HasSuffix(p.Fset.Position(f.Pos()).Filename, "/match.go") {
@@ -475,6 +478,193 @@ func exactTagRule(r *Report, p *Prog) {
 		}
 	}
 	r.floor(rule, "singleton results of matchNPMRequirement", n, 2)
+}
+
+// sortWholeRule: sortNPMVersions decides where the version tagged latest goes
+// by looking at every element it is given ("a prerelease while releases
+// exist"). It therefore has to be given the complete version list the caller
+// received (or a copy of it), never a filtered part.
+func sortWholeRule(r *Report, p *Prog, rule string) {
+	target := p.lookupFn("resolve.sortNPMVersions")
+	if target == nil {
+		r.bad(rule, "resolve.sortNPMVersions", "", "function not found: anchor lost")
+		return
+	}
+	var whole func(v ssa.Value, d int) (bool, string)
+	whole = func(v ssa.Value, d int) (bool, string) {
+		if d > 8 {
+			return false, ""
+		}
+		switch x := v.(type) {
+		case *ssa.Parameter:
+			return true, "the parameter " + x.Name()
+		case *ssa.UnOp:
+			if al, ok := x.X.(*ssa.Alloc); ok && x.Op == token.MUL {
+				if s := singleStore(al); s != nil {
+					return whole(s, d+1)
+				}
+			}
+		case *ssa.Slice:
+			if x.Low == nil && x.High == nil && x.Max == nil {
+				return whole(x.X, d+1)
+			}
+		case *ssa.Phi:
+			how := ""
+			for _, e := range x.Edges {
+				ok, h := whole(e, d+1)
+				if !ok {
+					return false, ""
+				}
+				how = h
+			}
+			return len(x.Edges) > 0, how
+		case *ssa.Call:
+			name := staticCalleeName(x)
+			if strings.HasPrefix(name, "slices.Clone") && len(x.Call.Args) == 1 {
+				if ok, h := whole(x.Call.Args[0], d+1); ok {
+					return true, "a copy of " + h
+				}
+			}
+			if bi, ok := x.Call.Value.(*ssa.Builtin); ok && bi.Name() == "append" && len(x.Call.Args) == 2 {
+				// append([]T(nil), w...) / append(w[:0:0], w...)
+				base := x.Call.Args[0]
+				emptyBase := false
+				if c, ok := base.(*ssa.Const); ok && c.Value == nil {
+					emptyBase = true
+				}
+				if emptyBase {
+					if ok, h := whole(x.Call.Args[1], d+1); ok {
+						return true, "a copy of " + h
+					}
+				}
+			}
+		}
+		return false, ""
+	}
+	n := 0
+	perFn := map[*ssa.Function]int{}
+	for _, f := range p.Funcs {
+		if !p.inScope(f) {
+			continue
+		}
+		for _, b := range f.Blocks {
+			for _, in := range b.Instrs {
+				c, ok := in.(*ssa.Call)
+				if !ok || c.Call.StaticCallee() != target {
+					continue
+				}
+				n++
+				perFn[f]++
+				key := fmt.Sprintf("%s: sortNPMVersions call #%d", fnKey(f), perFn[f])
+				if ok, how := whole(c.Call.Args[0], 0); ok {
+					r.ok(rule, key, p.pos(c.Pos()), "given "+how+", the complete list the caller received")
+				} else {
+					r.bad(rule, key, p.pos(c.Pos()), "sortNPMVersions is given a slice built inside this function, not the complete list it received: whether the version tagged latest is a prerelease 'while releases exist' is then judged on a part of the list, so its position depends on what was filtered out")
+				}
+			}
+		}
+	}
+	r.floor(rule, "calls of sortNPMVersions", n, 2)
+}
+
+// tagListRule: the Tags attribute of a version is a comma-separated list of
+// dist-tags. Every reader of that attribute value has to take it apart with
+// strings.Split(value, ",") (or hand it on unchanged); a substring or prefix
+// test on the raw value treats "latest-7" or "prelatest" as the tag "latest".
+func tagListRule(r *Report, p *Prog, rule string) {
+	var tagsVal constant.Value
+	if vp := p.Pkgs[modPrefix+"resolve/version"]; vp != nil {
+		if c, ok := vp.Types.Scope().Lookup("Tags").(*types.Const); ok {
+			tagsVal = c.Val()
+		}
+	}
+	if tagsVal == nil {
+		r.bad(rule, "version.Tags", "", "constant resolve/version.Tags not found: anchor lost")
+		return
+	}
+	n := 0
+	for _, f := range p.Funcs {
+		if !p.inScope(f) || strings.Contains(fnKey(f), "/internal/") {
+			continue
+		}
+		for _, b := range f.Blocks {
+			for _, in := range b.Instrs {
+				call, ok := in.(*ssa.Call)
+				if !ok || !strings.HasSuffix(staticCalleeName(call), ".GetAttr") {
+					continue
+				}
+				args := call.Call.Args
+				k, ok := args[len(args)-1].(*ssa.Const)
+				if !ok || k.Value == nil || !strings.HasSuffix(k.Type().String(), "resolve/version.AttrKey") || !constant.Compare(k.Value, token.EQL, tagsVal) {
+					continue
+				}
+				// the string result
+				var vals []ssa.Value
+				if refs := call.Referrers(); refs != nil {
+					for _, rf := range *refs {
+						if ex, ok := rf.(*ssa.Extract); ok && ex.Index == 0 {
+							vals = append(vals, ex)
+						}
+					}
+				}
+				seen := 0
+				var checkUses func(v ssa.Value, via string, depth int)
+				checkUses = func(v ssa.Value, via string, depth int) {
+					if v.Referrers() == nil {
+						return
+					}
+					for _, use := range *v.Referrers() {
+						if _, ok := use.(*ssa.DebugRef); ok {
+							continue
+						}
+						okUse, how := false, ""
+						switch u := use.(type) {
+						case *ssa.Call:
+							name := staticCalleeName(u)
+							switch {
+							case name == "strings.Split" || name == "strings.SplitSeq":
+								if sep, ok := u.Call.Args[len(u.Call.Args)-1].(*ssa.Const); ok && sep.Value != nil && sep.Value.Kind() == constant.String && constant.StringVal(sep.Value) == "," && u.Call.Args[0] == v {
+									okUse, how = true, "taken apart with "+name+"(value, \",\")"
+								}
+							case name == "strings.FieldsFunc" && u.Call.Args[0] == v:
+								okUse, how = true, "taken apart with strings.FieldsFunc"
+							case strings.HasSuffix(name, ".SetAttr") || strings.HasSuffix(name, ".AddAttr"):
+								okUse, how = true, "handed on unchanged to "+name
+							case u.Call.StaticCallee() != nil && p.inScope(u.Call.StaticCallee()) && depth < 3 && u.Call.StaticCallee().Blocks != nil:
+								// follow the value into the helper
+								callee := u.Call.StaticCallee()
+								for i, a := range u.Call.Args {
+									if a == v && i < len(callee.Params) {
+										checkUses(callee.Params[i], via+" -> "+fnKey(callee), depth+1)
+									}
+								}
+								continue
+							}
+						case *ssa.BinOp:
+							if c, ok := u.Y.(*ssa.Const); ok && c.Value != nil && c.Value.Kind() == constant.String && constant.StringVal(c.Value) == "" && (u.Op == token.EQL || u.Op == token.NEQ) {
+								okUse, how = true, "emptiness test"
+							}
+						case *ssa.Store, *ssa.Phi, *ssa.MakeInterface, *ssa.Return:
+							// handed on: formatting, returning or storing the raw list is not a tag test
+							okUse, how = true, "handed on unchanged"
+						}
+						n++
+						seen++
+						key := fmt.Sprintf("%s: use #%d of the Tags attribute value", fnKey(f)+via, seen)
+						if okUse {
+							r.ok(rule, key, p.pos(use.Pos()), how)
+						} else {
+							r.bad(rule, key, p.pos(use.Pos()), "the raw comma-separated Tags value is tested or transformed without splitting it on \",\": a tag that merely contains another (latest-7, prelatest) is taken for it, so the wrong version is treated as the one tagged latest")
+						}
+					}
+				}
+				for _, v := range vals {
+					checkUses(v, "", 0)
+				}
+			}
+		}
+	}
+	r.floor(rule, "uses of a GetAttr(version.Tags) value", n, 2)
 }
 
 // fromParamCell: v is the parameter itself or a local cell holding it.
